@@ -110,10 +110,12 @@ def gen_world(seed, tier):
             args["k"] = 0                       # a constructor that raises (after touching shared state?)
         ops.append({"op": "construct", "h": h, "class": cname, "args": args})
         seq = ["solve"] + rng.sample(["get_solution", "get_solution", "get_objective_value", "get_objective_value", "solve", "is_valid_solution"], rng.randint(1, 4))
+        if cname.startswith("Min") and rng.random() < 0.3:
+            seq = ["get_lowerbound_k"] + seq
         for s in seq:
-            if rng.random() < 0.15:
+            if rng.random() < 0.25:
                 # the caller does something else for a while: (virtual) wall time passes between two calls
-                ops.append({"op": "pause", "h": h, "seconds": rng.choice([30, 100, 1000, 5000])})
+                ops.append({"op": "pause", "h": h, "seconds": rng.choice([30, 100, 1000, 5000, 20000])})
             ops.append({"op": s, "h": h})
         h += 1
     # interleave a little: move some getter ops of earlier models to the end
@@ -241,6 +243,26 @@ def isolated_eval(payload):
 
 
 def execute(spec):
+    """The isolated re-evaluation uses canonical replies.  If the history ran under an 'alt' reply and a
+    result_depends_on_history difference shows up, the history is re-run with canonical replies: what then disappears
+    depended on which optimum the solver delivered (e.g. a generating set containing 4e-10, whose use as a coefficient
+    HiGHS refuses), not on the history."""
+    res = _execute(spec)
+    if spec["world"]["sim"].get("reply", "canonical") != "canonical" and any(
+            v["clause"] == "C18.result_depends_on_history" for v in res.get("violations", [])):
+        s2 = copy.deepcopy(spec)
+        s2["world"]["sim"]["reply"] = "canonical"
+        res2 = _execute(s2)
+        if "violations" in res2:
+            keep = {(v["clause"], v["fingerprint"]) for v in res2["violations"] if v["clause"] == "C18.result_depends_on_history"}
+            before = len(res["violations"])
+            res["violations"] = [v for v in res["violations"] if v["clause"] != "C18.result_depends_on_history" or (v["clause"], v["fingerprint"]) in keep]
+            if len(res["violations"]) < before:
+                res["counters"]["reply_dependent_difference_dismissed"] = 1
+    return res
+
+
+def _execute(spec):
     world = spec["world"]
     vs = []
     counters = {}
@@ -324,6 +346,8 @@ def execute(spec):
                         elif k == "get_objective_value":
                             if m.is_solved():
                                 I["objs"].append(canon(m.get_objective_value()))
+                        elif k == "get_lowerbound_k":
+                            m.get_lowerbound_k()
                         elif k == "is_valid_solution":
                             if m.is_solved():
                                 m.is_valid_solution()
